@@ -81,4 +81,26 @@ theorem signer_has_key (s : State) (t : Tx) (ha : anteOK s t false = true) :
     ∃ k ∈ s.keys, k.2 = t.msg.signer s :=
   (anteOK_true ha).2.2.2.1
 
+/-- A transaction the tx index already contains is rejected as a replay, in every mode, without
+any state change. -/
+theorem replay_rejected (s : State) (t : Tx) (mode : Mode) (h : s.index.contains t.id = true) :
+    runTx s mode t = (s, false) := by
+  have ha : anteOK s t (mode == .simulate) = false := by
+    cases ha : anteOK s t (mode == .simulate) with
+    | false => rfl
+    | true => rw [anteOK_index ha] at h; cases h
+  unfold runTx
+  split; · rfl
+  split; · rfl
+  simp [ha]
+
+/-- Every delivered transaction of a block (accepted or not) is in the index after Commit, so
+delivering the same bytes again in a later block is a replay. -/
+theorem delivered_then_indexed (s : State) (t : Tx) (r r2 : State × List (Addr × Int) × Bool)
+    (h1 : step s (.tx .deliver t) = some r) (h2 : step r.1 .commit = some r2) :
+    r2.1.index.contains t.id = true := by
+  simp only [step, Option.some.injEq] at h1 h2
+  subst h1; subst h2
+  simp
+
 end Posmint.Props.C03
